@@ -141,6 +141,10 @@ func TestExact3(t *testing.T) {
 				}
 			}
 			want := f(p)
+			if math.IsNaN(want) {
+				rec.Add("points:oracle-undecided(level-with-a-polygon-vertex)", 1)
+				continue
+			}
 			got := s.Evaluate(v3.Vec{X: p[0], Y: p[1], Z: p[2]})
 			tol := 1e-9 * (1 + math.Abs(p[0]) + math.Abs(p[1]) + math.Abs(p[2]) + size)
 			rec.Add("points:"+class, 1)
@@ -215,6 +219,10 @@ func TestExact2(t *testing.T) {
 				}
 			}
 			want := f(p)
+			if math.IsNaN(want) {
+				rec.Add("points2:oracle-undecided(level-with-a-polygon-vertex)", 1)
+				continue
+			}
 			got := s.Evaluate(v2.Vec{X: p[0], Y: p[1]})
 			tol := 1e-9 * (1 + math.Abs(p[0]) + math.Abs(p[1]) + size)
 			rec.Add("points2:"+class, 1)
